@@ -173,6 +173,9 @@ func renderPgn(bs *BookSpec) string {
 			switch dec.Intn(14) {
 			case 0:
 				parts = append(parts, "{a comment with (parens) and 12. fake moves}")
+			case 3:
+				// parentheses inside a comment need not balance
+				parts = append(parts, []string{"{:( }", "{:) }", "{a) the first idea}", "{better (see game 12}", "{1) e4 2) d4}"}[dec.Intn(5)])
 			case 1:
 				parts = append(parts, fmt.Sprintf("$%d", dec.Range(1, 139)))
 			case 2:
